@@ -739,7 +739,7 @@ def corpus():
 def explore_corpus(ex: Explore, fam, pl):
     from ..impl import c11_hints as H
     from ..impl import c11_run
-    jobs = [{'hints': [n], 'apis': c11_run.APIS, 'objs': ['int', 'list_int', 'str'] + cf, 'timeout': 120}
+    jobs = [{'hints': [n], 'apis': c11_run.APIS, 'objs': ['int', 'list_int', 'str', 'cls_int', 'cls_bool'] + cf, 'timeout': 120}
             for n in corpus() for cf in ([], ['conf:tower'])]
     found = {}
     for node, job, res in zip([n for n in corpus() for _ in (0, 1)], jobs, pl.map(batch_job, jobs, chunksize=1)):
